@@ -4,7 +4,7 @@ use std::{
     sync::{Arc, Mutex, atomic::{AtomicUsize, Ordering}},
 };
 
-use ptverif::{alloc, engine, exec, server};
+use ptverif::{alloc, engine, exec, filebuf, server};
 
 #[global_allocator]
 static A: alloc::Counting = alloc::Counting;
@@ -56,6 +56,11 @@ fn main() {
                                     serde_json::from_str(&lines[i]).expect("job json");
                                 let r = engine::run_engine(&job, &work);
                                 engine::to_ndjson(&job, &r, &mut out);
+                            }
+                            "filebuf" => {
+                                let job: filebuf::BufJob =
+                                    serde_json::from_str(&lines[i]).expect("job json");
+                                out.push(filebuf::run_buf(&job, &work));
                             }
                             "server" => {
                                 let job: server::ServerJob =
